@@ -427,18 +427,9 @@ func valueOps(r *vl.Rng, ud *unitData, out *vl.Out) []*opLine {
 		item := defText(ud.prog, st.File, "struct", st.Name)
 		ls = append(ls, &opLine{text: "N " + key, driver: true, ud: ud, what: "N", nontrivial: true, item: item, check: func(ans string) string { return sameValue(ans, init) }})
 		ls = append(ls, &opLine{text: "Z " + key, driver: true, ud: ud, what: "Z", nontrivial: true, item: item, check: func(ans string) string { return sameValue(ans, init) }})
-		// a field named `_x` becomes the unexported Go field `_X`: the reflection driver cannot build such objects
-		unexported := false
-		for _, e := range u.Registry {
-			if e.Sidx == sidx {
-				for _, gf := range e.GoField {
-					if gf == "" || gf[0] == '_' || (gf[0] >= 'a' && gf[0] <= 'z') {
-						unexported = true
-					}
-				}
-			}
-		}
-		if unexported {
+		// a field named `_x` becomes the unexported Go field `_X`: the reflection driver cannot build objects of
+		// such a type, nor of a type that contains one
+		if reachesUnexported(u, sidx, map[int]bool{}) {
 			out.Count("skip.G.unexported_field")
 			continue
 		}
@@ -567,3 +558,44 @@ func checkG(st *idlgen.SStruct, v *values.Value, ans string) string {
 	return ""
 }
 
+
+func unexportedField(u *batch.UnitInfo, sidx int) bool {
+	for _, e := range u.Registry {
+		if e.Sidx == sidx {
+			for _, gf := range e.GoField {
+				if gf == "" || gf[0] == '_' || (gf[0] >= 'a' && gf[0] <= 'z') {
+					return true
+				}
+			}
+		}
+	}
+	return false
+}
+
+func reachesUnexported(u *batch.UnitInfo, sidx int, seen map[int]bool) bool {
+	if seen[sidx] {
+		return false
+	}
+	seen[sidx] = true
+	if unexportedField(u, sidx) {
+		return true
+	}
+	var walk func(t *idlgen.RType) bool
+	walk = func(t *idlgen.RType) bool {
+		switch t.Kind {
+		case idlgen.RList, idlgen.RSet:
+			return walk(t.Elem)
+		case idlgen.RMap:
+			return walk(t.Key) || walk(t.Elem)
+		case idlgen.RStruct:
+			return reachesUnexported(u, t.Sidx, seen)
+		}
+		return false
+	}
+	for _, f := range u.Schema.Structs[sidx].Fields {
+		if walk(f.Type) {
+			return true
+		}
+	}
+	return false
+}
